@@ -31,6 +31,9 @@ from .. import aflat, common, flat, nfinal, runner
 from ..common import SLOT
 from ..runner import Exploration, Failure
 
+# the one open finding of C18 (known_findings.json F-C18-shared-state-object)
+SIG_SHARED = 'C18:_final_check:entered-recognised-by-state-object:child-machine-embedded-twice'
+
 WATCH = (SLOT['on_enter'], SLOT['on_final'], SLOT['after'])
 
 
@@ -104,7 +107,7 @@ def describe(p, ans=None):
     if ans is not None:
         out['lean_spec'] = [o - 1 for o in ans['spec'][0]]
         out['lean_code_model'] = 'AttributeError' if ans['code'] is None else [o - 1 for o in ans['code'][0]]
-        out['hypotheses'] = {'enteredWF': ans['wf']}
+        out['hypotheses'] = {'enteredWF': ans['wf'], 'noShared': ans['noshared']}
     return out
 
 
@@ -172,9 +175,14 @@ def settle(pend, ex, fails, keep=3):
         if p.probs:
             pos_only = all(('runs after' in x or 'not between' in x or 'configuration changes' in x) for x in p.probs)
             sig = 'C18.monitor.position' if pos_only else ('C18.monitor.raises' if attr_error(p) else 'C18.monitor')
+            # the open finding: an entered state shares its state object with another active state (structural
+            # condition, `noShared` false) AND the implementation does exactly what the transcription of the code
+            # — which recognises "entered" by object — predicts
+            if sig == 'C18.monitor' and not a['noshared'] and same:
+                sig = SIG_SHARED
             bump(ex.stats, 'monitor_rejections', sig)
             kept[sig] = kept.get(sig, 0) + 1
-            if kept[sig] <= keep:
+            if kept[sig] <= (1 if sig == SIG_SHARED else keep):
                 fails.append(Failure('monitor', 'fires-spec', p.case, describe(p, a), signature=sig))
 
 
@@ -232,8 +240,8 @@ def judge_nested_case(case, ex=None):
     return fails
 
 
-def chunk_nested(seed, idx, n, deadline):
-    rng = random.Random('C18/nested/%d/%d' % (seed, idx))
+def chunk_nested(seed, idx, n, deadline, embedded=False):
+    rng = random.Random('C18/nested/%d/%d/%d' % (seed, idx, int(embedded)))
     ex = Exploration()
     kn = nfinal.Knobs()
     fails, pend = [], []
@@ -241,7 +249,11 @@ def chunk_nested(seed, idx, n, deadline):
         if k >= 8 and time.time() > deadline:
             bump(ex.stats, 'cases_not_run_after_deadline', 'nested', n - k)
             break
-        d = nfinal.gen_desc(rng, kn, kind=(k + idx) % 2)
+        if embedded:
+            d = nfinal.gen_embedded(rng, kind=(k + idx) % 2)
+            bump(ex.stats, 'features', 'child_machine_embedded_under_several_states')
+        else:
+            d = nfinal.gen_desc(rng, kn, kind=(k + idx) % 2)
         case = {'part': 'nested', 'desc': d.to_json()}
         ex.evaluations += 1
         bump(ex.stats, 'class', 'HierarchicalAsyncMachine' if d.kind else 'HierarchicalMachine')
@@ -489,17 +501,214 @@ def chunk_flat(seed, idx, n, is_async, deadline):
 
 
 # ---------------------------------------------------------------------------------------------
+# flat machines with re-entrant events: callbacks (on_enter, on_exit, before, …) trigger further events
+# ---------------------------------------------------------------------------------------------
+
+REENTRANT_CLASSES = ['Machine', 'LockedMachine', 'GraphMachine', 'HierarchicalMachine', 'AsyncMachine']
+PRE_SLOTS = (SLOT['prepare_event'], SLOT['prepare'], SLOT['conditions'], SLOT['unless'],
+             SLOT['before_state_change'], SLOT['before'], SLOT['on_exit'])
+
+
+def reentrant_knobs():
+    return flat.Knobs(max_models=2, p_unknown_event=0.0, max_history=5, max_states=4, max_events=3,
+                      p_cmds=0.3, max_cmds=2, cmd_kinds=(flat.TRIGGER,), hist_kinds=(flat.TRIGGER,), p_queued=0.4,
+                      p_share_cb=0.0)
+
+
+def inject_moves(d, rng):
+    """steer the generator to the interesting shape: an on_enter (sometimes on_exit / before) callback of a state
+    that some transition enters fires an event that has a transition FROM that state — the model moves on
+    while the first transition is still running (final -> non-final, non-final -> final, chains)"""
+    for _ in range(rng.randint(1, 2)):
+        dests = sorted(set(t['dest'] for _ev, ts in d.events for t in ts if t['dest'] is not None))
+        if not dests:
+            return
+        st = rng.choice(dests)
+        evs = [ev for ev, ts in d.events if any(t['source'] == st for t in ts)]
+        if not evs:
+            continue
+        sd = next(x for x in d.states if x['name'] == st)
+        key = 'on_enter' if rng.random() < 0.8 else 'on_exit'
+        if not sd[key]:
+            c = max(list(d.cb_slot) + [-1]) + 1
+            d.cb_slot[c] = SLOT[key]
+            sd[key] = [c]
+        cb = rng.choice(sd[key])
+        for k in range(rng.randint(1, 2)):
+            d.script[(cb, k)] = ([(flat.TRIGGER, rng.choice(d.models), rng.choice(evs))], ('ret', True))
+
+
+def reentrant_oracle(d, items):
+    """C18 with events running inside events (any nesting depth; queued or not).  Every callback carries the
+    tag of the trigger call whose event it belongs to, so the on_enter / on_final / after calls of ONE event are
+    the calls with its tag, whatever other events ran in between (inside its callbacks, or later from the queue).
+    For every event: some w — a transition of that event (from the state the model was in when the event
+    started, when observable), or nothing — explains exactly those calls: the destination's on_enter callbacks,
+    then the machine's on_final callbacks once each iff THAT destination is final, then the after callbacks.
+    So every entry of a final state is followed, after its on_enter callbacks (and whatever events they ran) and
+    before its transition's after callbacks, by exactly one run of the on_final list, and on_final runs at no
+    other time.  An event in which a callback raised is cut short: its calls must be a prefix."""
+    problems = []
+    by_name = {s['name']: s for s in d.states}
+    events = dict(d.events)
+    tag_ev, info, stack = {}, {}, []
+    for it in items:
+        if it[0] == 'api':
+            tag_ev[it[2]] = (it[1], it[4])
+        elif it[0] == 'call':
+            slot, cb, _m, tag, st = it[1:6]
+            e = info.setdefault(tag, {'view': [], 'raised': False, 'src': None, 'first': True})
+            if e['first']:
+                e['first'] = False
+                if slot in PRE_SLOTS:
+                    e['src'] = st
+            if slot in WATCH:
+                e['view'].append((slot, cb))
+            stack.append(tag)
+        elif it[0] == 'done' and stack:
+            tag = stack.pop()
+            if it[2] == 1:
+                info[tag]['raised'] = True
+    for tag, e in sorted(info.items()):
+        kind, ev = tag_ev.get(tag, (None, None))
+        if kind != flat.TRIGGER:
+            continue
+        cands = [t for t in events.get(ev, []) if e['src'] is None or t['source'] == e['src']]
+        ok = False
+        for w in [None] + cands:
+            if w is None:
+                exp = []
+            elif w['dest'] is None:
+                exp = [(SLOT['after'], c) for c in w['after']]
+            else:
+                dd = by_name[w['dest']]
+                exp = [(SLOT['on_enter'], c) for c in dd['on_enter']]
+                if dd['final']:
+                    exp += [(SLOT['on_final'], c) for c in d.on_final]
+                exp += [(SLOT['after'], c) for c in w['after']]
+            if e['view'] == exp or (e['raised'] and exp[:len(e['view'])] == e['view']):
+                ok = True
+                break
+        if not ok:
+            problems.append({'tag': tag, 'event': ev, 'source': e['src'], 'cut_short_by_exception': e['raised'],
+                             'calls_of_this_event': [(common.SLOTS[s_], c) for s_, c in e['view']]})
+    return problems
+
+
+def reentrant_run(d, clsname):
+    if clsname == 'AsyncMachine':
+        from transitions.extensions.asyncio import AsyncMachine
+        return aflat.Run7(d, AsyncMachine, True).run()
+    from . import c04
+    cls, kw = c04.get_cls(clsname)
+    return flat.FlatRun(d, machine_cls=cls, extra_kwargs=kw).run()
+
+
+def reentrant_desc_of(case):
+    return (aflat.from_json if case['cls'] == 'AsyncMachine' else flat.FlatDesc.from_json)(copy.deepcopy(case['desc']))
+
+
+def reentrant_judge(case, d, ans, r):
+    fails = []
+    probs = reentrant_oracle(d, r.items)
+    if probs:
+        fails.append(Failure('monitor', 'flat-reentrant-final-event', case,
+                             {'class': case['cls'], 'queued': bool(d.queued), 'problems': probs[:3],
+                              'impl_trace': [common.show_item(i) for i in r.items[:80]]},
+                             signature='C18.flat.reentrant.monitor'))
+    m = flat.parse_model_answer(ans) if ans is not None else None
+    if m is not None:
+        a, b = flat_obs(m[0]), flat_obs(r.items)
+        if a != b:
+            k = next((i for i, (x, y) in enumerate(zip(a, b)) if x != y), min(len(a), len(b)))
+            fails.append(Failure('correspondence', 'flat_reentrant_view_eq', case, {
+                'class': case['cls'], 'first_difference_at': k,
+                'model': [common.show_item(i) for i in a[max(0, k - 3):k + 3]],
+                'impl': [common.show_item(i) for i in b[max(0, k - 3):k + 3]]}))
+    return fails
+
+
+def judge_reentrant_case(case):
+    d = reentrant_desc_of(case)
+    ans = common.batch_driver([('flat', d.enc_case())])[0]
+    try:
+        with watchdog():
+            r = reentrant_run(d, case['cls'])
+    except Hang:
+        return [Failure('monitor', 'hang', case, {}, signature='C18.hang')], None
+    return reentrant_judge(case, d, ans, r), r
+
+
+def chunk_reentrant(seed, idx, n, deadline):
+    rng = random.Random('C18/reentrant/%d/%d' % (seed, idx))
+    ex = Exploration()
+    kn = reentrant_knobs()
+    cases = []
+    for k in range(n):
+        d = flat.gen_flat(rng, kn)
+        flat_prepare(d, rng)
+        inject_moves(d, rng)
+        clsname = REENTRANT_CLASSES[(k + idx) % len(REENTRANT_CLASSES)]
+        if clsname == 'AsyncMachine':
+            aflat.decorate(d, rng, qmode=int(d.queued), p_kind=(0.5, 0.5, 0.0))
+            for c, out in d.const.items():
+                for kk in range(flat.DET_DEPTH):
+                    d.script[(c, kk)] = ((), out)
+            dj = aflat.to_json(d)
+        else:
+            dj = d.to_json()
+        cases.append({'part': 'reentrant', 'cls': clsname, 'desc': json.loads(json.dumps(dj))})
+    descs = [reentrant_desc_of(c) for c in cases]
+    answers = common.batch_driver([('flat', d.enc_case()) for d in descs])
+    for k, (case, d, ans) in enumerate(zip(cases, descs, answers)):
+        if k >= 10 and time.time() > deadline:
+            bump(ex.stats, 'cases_not_run_after_deadline', 'reentrant', n - k)
+            break
+        try:
+            with watchdog():
+                r = reentrant_run(d, case['cls'])
+        except Hang:
+            ex.failures.append(Failure('monitor', 'hang', case, {}, signature='C18.hang'))
+            continue
+        fs = reentrant_judge(case, d, ans, r)
+        ex.evaluations += 1
+        ex.traces_validated += 1
+        bump(ex.stats, 'reentrant_class', case['cls'] + (':queued' if d.queued else ''))
+        ex.failures += fs
+        # nesting depth of events and final-state entries that happen inside another event
+        depth, mx, inner_final = 0, 0, 0
+        for it in r.items:
+            if it[0] == 'api':
+                depth += 1
+                mx = max(mx, depth)
+            elif it[0] in ('ret', 'raised'):
+                depth -= 1
+            elif it[0] == 'call' and it[1] == SLOT['on_final'] and depth >= 2:
+                inner_final += 1
+        bump(ex.stats, 'reentrant_event_nesting_depth', min(mx, 4))
+        if inner_final:
+            bump(ex.stats, 'features', 'on_final_inside_a_nested_event')
+            ex.nontrivial.add('re' + hashlib.sha1(repr((case['cls'], d.enc_case())).encode()).hexdigest()[:14])
+        if len(ex.samples) < 1 and inner_final and not fs:
+            ex.samples.append({'part': 'reentrant', 'class': case['cls'],
+                               'trace': [common.show_item(i) for i in r.items[:40]]})
+    return ex
+
+
+# ---------------------------------------------------------------------------------------------
 # shrinking, corpus, the check
 # ---------------------------------------------------------------------------------------------
 
 def judge_case(case):
     if case.get('part') == 'flat':
         return judge_flat_case(case)[0]
+    if case.get('part') == 'reentrant':
+        return judge_reentrant_case(case)[0]
     return judge_nested_case(case)
 
 
 def shrink_steps(case):
-    if case.get('part') == 'flat':
+    if case.get('part') in ('flat', 'reentrant'):
         from .. import flatcheck
         for c in flatcheck.shrink_steps({'stream': 'x', 'desc': case['desc']}):
             yield dict(case, desc=c['desc'])
@@ -571,7 +780,10 @@ class C18(runner.Check):
     prop = 'C18'
     level = 'proof'
     theorems = ('TM.C18_flat_exact', 'TM.C18_flat_history', 'TM.C18_flat_final_position',
-                'TM.C18_flat_no_final_otherwise', 'TM.C18_nested_exact', 'TM.C18_nested_calls', 'TM.C18_nested_owner_iff',
+                'TM.C18_flat_no_final_otherwise', 'TM.C18_flat_tags_fresh', 'TM.C18_flat_reentrant_exact',
+                'TM.C18_flat_reentrant_event', 'TM.C18_nested_exact_partial', 'TM.C18_nested_exact_distinct_objects',
+                'TM.C18_nested_exact_counterexample', 'TM.C18_nested_exact_counterexample_shared',
+                'TM.C18_nested_calls', 'TM.C18_nested_owner_iff',
                 'TM.C18_nested_machine_last', 'TM.C18_nested_children_first', 'TM.C18_nested_once')
     manifest = dict(
         level='proof', design='DESIGN.md 4/C18 + design_notes/C18.md',
@@ -579,10 +791,16 @@ class C18(runner.Check):
              "neither raises nor re-enters the API and every history, the on_enter / on_final / after calls of each event "
              "are the destination's on_enter callbacks, then iff the destination is final the machine's on_final callbacks "
              "once each in list order, then the after callbacks (internal: after only; nothing executed: none), with "
-             "nothing between events. Nested: the transcription of NestedTransition._final_check (loop variable doubling "
+             "nothing between events; for EVERY script (callbacks that trigger further events on unqueued or queued "
+             "machines, raise, change membership) C18_flat_reentrant_exact / _event: under its own tag an executed "
+             "transition starts exactly its destination's on_enter callbacks, on_final iff THAT destination is final, "
+             "its after callbacks, wherever nested events left the model (tags are fresh: C18_flat_tags_fresh). Nested: the transcription of NestedTransition._final_check (loop variable doubling "
              "as return value included) against the declarative fires spec over all configuration trees, flag "
-             "placements and entered sets by structural induction: C18_nested_exact at full strength (the check never "
-             "raises and schedules exactly the owners that fire), plus children-first / machine-last / once; the "
+             "placements and entered sets by structural induction: C18_nested_exact (the check never raises and "
+             "schedules exactly the owners that fire) holds whenever no entered state shares its state OBJECT with "
+             "another active state (C18_nested_exact_partial / _distinct_objects); open finding F-C18-shared-state-object "
+             "with proved counterexample (one child machine embedded under several states); plus children-first / "
+             "machine-last / once; the "
              "three defects repaired by 919a36b / 576f1fd are regression examples in Lean and in the corpus. Tied to /repo by driving HierarchicalMachine and "
              "HierarchicalAsyncMachine on random (depth <= 4, exclusive/parallel/partial-parallel) and all small trees, "
              "observing per executed transition the entered set, configuration and recorder calls (coroutine recorders "
@@ -596,7 +814,8 @@ class C18(runner.Check):
              "configuration are OBSERVED on the implementation (on_enter recorders, model.state), not modelled: how "
              "_resolve_transition computes them is C02/C03's subject; theorem hypothesis enteredWF (entered states are "
              "active afterwards; below an entered state everything active was entered) is checked on every observed "
-             "segment and reported. No open finding: every rejection is a VIOLATION.",
+             "segment and reported. One open finding (F-C18-shared-state-object), classified by signature only when the "
+             "structural condition holds AND the implementation behaves exactly as the transcription predicts.",
         technique='Lean 4 proof (mutual structural induction over configuration trees; acceptor analysis for the flat '
                   'engine) + differential correspondence of _final_check + spec monitor on observed transitions, '
                   'exhaustive small scope')
@@ -606,7 +825,9 @@ class C18(runner.Check):
             'descendants, blocked by conditions) + auto transitions x histories of 2-9 events, alternating '
             'HierarchicalMachine / HierarchicalAsyncMachine (plain and coroutine recorders); small scope: every ordered '
             'forest with <= N states x every kind of every compound x every final-flag placement x to_Y;to_Z for all '
-            'Y,Z; flat: descriptions of harness/flat.py with final states and machine on_final on Machine / AsyncMachine. '
+            'Y,Z; one child machine embedded under several regions; flat: descriptions of harness/flat.py with final states '
+            'and machine on_final on Machine / AsyncMachine, plus a re-entrant stream (callbacks that trigger further events, '
+            'unqueued and queued, on Machine / LockedMachine / GraphMachine / HierarchicalMachine / AsyncMachine). '
             'A nested segment is non-trivial when at least one owner fires; distinct = distinct (flags, configuration, '
             'entered set) / distinct flat encoding')
     trusted = ('transcription lean/Model/Final.lean of nesting.py _final_check / _final_check_nested, tied to /repo by '
@@ -640,12 +861,16 @@ class C18(runner.Check):
             rand = [(chunk_nested, (seed, i, 70, soft)) for i in range(32)]
             rand += [(chunk_flat, (seed, i, 40, False, soft)) for i in range(8)]
             rand += [(chunk_flat, (seed, i, 30, True, soft)) for i in range(8)]
+            rand += [(chunk_reentrant, (seed, i, 60, soft)) for i in range(12)]
+            rand += [(chunk_nested, (seed, i, 40, soft, True)) for i in range(4)]
         else:
             soft, hard = t0 + 300, t0 + 450
             small = [(1, 0), (2, 0), (3, 0), (4, 0), (1, 1), (2, 1), (3, 1), (4, 1), (5, 0), (6, 0)]
             rand = [(chunk_nested, (seed, i, 200, soft)) for i in range(48)]
             rand += [(chunk_flat, (seed, i, 250, False, soft)) for i in range(16)]
             rand += [(chunk_flat, (seed, i, 150, True, soft)) for i in range(16)]
+            rand += [(chunk_reentrant, (seed, i, 400, soft)) for i in range(20)]
+            rand += [(chunk_nested, (seed, i, 300, soft, True)) for i in range(8)]
         # order of work on the pool: complete small scopes (<= 4 states), the random streams, then the large
         # small scopes (5, 6 states) which thin out (every 8th placement) after `soft` and stop after `hard`
         first, last = [], []
@@ -667,7 +892,7 @@ class C18(runner.Check):
         done = set()
         for f in ex.failures:
             key = (f.kind, f.what, f.signature)
-            if key in done:
+            if key in done or f.signature == SIG_SHARED:     # the open finding has its minimal witness in the corpus
                 continue
             done.add(key)
             f.case = runner.shrink(f.case, self.fails_like(f), shrink_steps, budget=15 if f.what == 'hang' else 300)
@@ -688,6 +913,7 @@ class C18(runner.Check):
         payloads = [(chunk_nested, (seed + 7919, i, 150, soft)) for i in range(32)]
         payloads += [(chunk_flat, (seed + 7919, i, 150, False, soft)) for i in range(8)]
         payloads += [(chunk_flat, (seed + 7919, i, 100, True, soft)) for i in range(8)]
+        payloads += [(chunk_reentrant, (seed + 7919, i, 150, soft)) for i in range(10)]
         for part in runner.parallel(_dispatch, payloads):
             found += [f for f in part.failures if f.kind == 'monitor']
         for f in found[:1]:
